@@ -2,10 +2,13 @@
    Proved: the metadata tail (side, castling rights, en-passant square, both clocks <= 9999) of the writer
    output parses back to exactly those fields; the digits and rights round trips; the standard-position
    constructor, the parser and the builder agree (closed computations over the regenerated keys).
-   OPEN: the run-length piece-placement half and C05_parse_write (decided by round trips on every
-   generated board, byte for byte). *)
+   FULL round trip: for every board with the placement invariant, hash = from-scratch hash, derived state
+   from scratch, bounds as stated and passing validation, parse (write b) = b with ALL fields
+   (C05_write_parse); every canonical text parses to a board that writes the same bytes (C05_parse_write).
+   The hypotheses hold for every parsed board (C04_parse_consistent, C06) and are kept by make-move under
+   the local move conditions (C04_apply_consistent); the remaining link "legal => those conditions" is open. *)
 From Coq Require Import NArith List Bool.
-From Chess Require Import base.Bits base.Types base.BitBoard model.Board model.Fen spec.Rules proofs.FenFacts proofs.CoreFacts.
+From Chess Require Import base.Bits base.Types base.BitBoard model.Board model.Fen spec.Rules proofs.FenFacts proofs.CoreFacts proofs.FenRoundTrip.
 Import ListNotations.
 Local Open Scope N_scope.
 
@@ -32,5 +35,23 @@ Theorem C05_standard_writer : write_fen standard = std_fen.
 Proof. exact standard_writes. Qed.
 Print Assumptions C05_standard_writer.
 
-Definition C05_write_parse_statement (Reach : board -> Prop) : Prop :=
-  forall b, Reach b -> b_half b <= 9999 -> b_full b <= 9999 -> parse_fen (write_fen b) = Some b.
+Theorem C05_placement_roundtrip : forall b rest, FenRoundTrip.Part b ->
+  placement (flat_map (write_rank b) [7;6;5;4;3;2;1;0] ++ rest) 0 7 empty_board = Ret (inr (raw_of b, rest)).
+Proof. exact placement_write. Qed.
+Print Assumptions C05_placement_roundtrip.
+
+Theorem C05_write_parse : forall b b0, b = update_pin_info b0 -> FenRoundTrip.Part b ->
+  b_rights b < 16 -> (forall f, b_ep b = Some f -> f < 8) -> b_half b <= 9999 -> b_full b <= 9999 ->
+  b_zob b = FenRoundTrip.scratch_piece_hash b -> validate b = None -> parse_fen (write_fen b) = Some b.
+Proof. exact write_parse_roundtrip_built. Qed.
+Print Assumptions C05_write_parse.
+
+Theorem C05_parse_write : forall s b', Canonical s -> parse_fen_t s = Ret (POk b') -> write_fen b' = s.
+Proof. exact canonical_parse_write. Qed.
+Print Assumptions C05_parse_write.
+
+Theorem C05_standard_satisfies_hypotheses :
+  b_rights standard < 16 /\ (forall f, b_ep standard = Some f -> f < 8) /\ b_half standard <= 9999 /\ b_full standard <= 9999
+  /\ b_zob standard = FenRoundTrip.scratch_piece_hash standard /\ validate standard = None /\ update_pin_info standard = standard.
+Proof. exact standard_hypotheses. Qed.
+Print Assumptions C05_standard_satisfies_hypotheses.
